@@ -149,17 +149,21 @@ def edge_start(cfg, b, si):
     return (s, -1)
 
 
-def local_decl_init(fn, name):
-    """Initialiser expressions of local `name` and the number of other writes."""
+def local_decl_init(fn, name, decl_id=None):
+    """Initialiser expressions of local `name` (of the declaration `decl_id` when given: several scopes may
+    declare the same name) and the number of other writes."""
     inits = []
     other = 0
     for b, i, x, line in fn.cfg.all_elems():
         for l, kind, n in writes(x):
             if lv(l) == name:
                 if kind == "decl":
-                    inits.append(n.get("init"))
+                    if decl_id is None or n.get("id") == decl_id:
+                        inits.append(n.get("init"))
                 else:
-                    other += 1
+                    lr = strip_casts(l)
+                    if decl_id is None or lr.get("id") in (None, decl_id):
+                        other += 1
     return inits, other
 
 
@@ -178,7 +182,7 @@ def const_eval(fn, x, depth=0):
     if k == "elem" and fn is not None:
         return const_eval(fn, fn.cfg.resolve(x), depth + 1)
     if k == "ref" and x.get("dk") in ("local", "slocal") and fn is not None:
-        inits, other = local_decl_init(fn, x["n"])
+        inits, other = local_decl_init(fn, x["n"], x.get("id"))
         if other == 0 and len(inits) == 1 and inits[0] is not None:
             return const_eval(fn, inits[0], depth + 1)
         return None
